@@ -30,6 +30,16 @@ pub enum MessageKind
 }
 
 
+#[cfg(hlorenzi_customasm_verif)]
+impl Report
+{
+	pub fn verif_messages(&self) -> &Vec<Message>
+	{
+		&self.messages
+	}
+}
+
+
 struct LineInfo
 {
 	line1: usize,
